@@ -40,6 +40,8 @@ func (c17) Assumptions() []string {
 
 func (c17) Gates(tier string, m map[string]int64) []rt.Gate {
 	return []rt.Gate{
+		rt.GateMin("errors held across later failing statements and rendered again", m, "held_errors_rechecked", 1000),
+		rt.GateMin("queries with a tab or line break before the leading blanks", m, "leading_tab_or_newline", 500),
 		rt.GateMin("positional errors from BuildPlan checked", m, "plan_errors", 2000),
 		rt.GateMin("positional errors from execution checked", m, "exec_errors", 200),
 		rt.GateMin("renderings checked", m, "renderings", 5000),
@@ -74,6 +76,7 @@ var c17ExecErr = []string{
 
 func (k c17) Run(c *rt.Ctx) {
 	r := c.R
+	held := &c17Held{}
 	for i := 0; i < c17Block; i++ {
 		fam := []string{gen.FNum, gen.FMixed, gen.FTiny, gen.FRel, "text"}[r.Intn(5)]
 		ps := c06Store(r, fam)
@@ -111,7 +114,13 @@ func (k c17) Run(c *rt.Ctx) {
 			lead = 0
 		}
 		q = strings.Repeat(" ", lead) + q + strings.Repeat(" ", trail)
-		k.judge(c, q, ps)
+		if r.Chance(1, 6) {
+			// other white space before the leading blanks (a pasted multi-line literal): it is
+			// stripped from the shown line like the blanks are
+			q = []string{"\n", "\t", "\r\n", "\n\n", "\t\t ", " \n"}[r.Intn(6)] + " " + q
+			c.Rec.Inc("leading_tab_or_newline")
+		}
+		k.judge(c, q, ps, held)
 	}
 }
 
@@ -157,9 +166,17 @@ func c17Tokens(q string) (starts map[int]bool, ok bool) {
 	return starts, true
 }
 
-func (k c17) judge(c *rt.Ctx, q string, ps []refstore.Pair) {
+// c17Held is an error of an earlier statement of the same case, kept to see
+// that it still renders the same text after later statements failed.
+type c17Held struct {
+	err   error
+	query string
+	text  string
+}
+
+func (k c17) judge(c *rt.Ctx, q string, ps []refstore.Pair, held *c17Held) {
 	rec := c.Rec
-	if strings.ContainsAny(q, "\n\r") {
+	if strings.ContainsAny(strings.TrimSpace(q), "\n\r") {
 		rec.NotJudged("query contains a line break (rendering is line based; line breaks are not token separators)")
 		return
 	}
@@ -250,7 +267,35 @@ func (k c17) judge(c *rt.Ctx, q string, ps []refstore.Pair) {
 			texts, _, _ := drive.Render(err, q, []int{7})
 			rec.Sample(rt.D{"query": q, "pos": pos, "rendered": strings.Split(texts[0], "\n")})
 		}
+		// (4) errors are independent values: an error held from an earlier statement renders
+		// what it rendered before, whatever failed since
+		if held != nil {
+			if held.err != nil {
+				now, pan := c17Again(held.err)
+				rec.Inc("held_errors_rechecked")
+				if pan != "" || now != held.text {
+					hq, ht := held.query, held.text
+					c.Violation("earlier-error-changed-by-a-later-statement", cl("held error renders differently"), detail(rt.D{"earlier_query": hq, "earlier_rendering": strings.Split(ht, "\n"), "rendering_now": strings.Split(now, "\n"), "panic": pan}))
+					held.err = nil
+					return
+				}
+			}
+			text, pan := c17Again(err)
+			if pan == "" {
+				held.err, held.query, held.text = err, q, text
+			}
+		}
 	}
+}
+
+// c17Again renders an already bound error once more.
+func c17Again(err error) (text string, pan string) {
+	defer func() {
+		if r := recover(); r != nil {
+			pan = fmt.Sprint(r)
+		}
+	}()
+	return err.Error(), ""
 }
 
 func keysOfInt(m map[int]bool) []int {
